@@ -20,15 +20,15 @@ def arg_k_values(rep, tier):
   with the smallest / largest scores of each group (scores distinct), in score order, whatever the row order."""
   from vlib import logica_run
   r = common.rng('c02-argk')
-  n = 8 if tier == 'quick' else 120
+  n = 24 if tier == 'quick' else 240
   runs = bad = 0
-  for _ in range(n):
-    m = r.randint(3, 7)
+  for it in range(n):
+    m = r.randint(4, 8)
     scores = r.sample(range(1, 50), m)
-    rows = [('g%d' % r.randint(0, 1), 'n%d' % i, sc) for i, sc in enumerate(scores)]
+    rows = [('g%d' % (0 if i < m - 2 else 1), 'n%d' % i, sc) for i, sc in enumerate(scores)]   # g0 has more than K rows
     r.shuffle(rows)
-    k = r.choice([1, 2, 2, 3, 4])
-    mx = r.random() < 0.5
+    k = [1, 2, 3, 2][it % 4]            # every operator with K = 1, 2, 3 in turn
+    mx = (it // 4) % 2 == 0
     op = ('ArgMax' if mx else 'ArgMin') + ('K' if k > 1 or r.random() < 0.5 else '')
     facts = ''.join('Score("%s", "%s", %d);\n' % x for x in rows)
     fn = 'Best(x) = %s(x, %d);\n' % (op, k) if op.endswith('K') else ''
